@@ -45,10 +45,24 @@ typedef struct
     /** Offset into ecounter where the previous request left off */
     unsigned offset;
 
+    /** Number of blocks to advance the lane counters by before the next batch */
+    unsigned pending;
+
     /** Base pointer for unaligned memory allocation */
     void *base_ptr;
 
 } Skinny128CTRVec256Ctx_t;
+
+/* Discard the buffered keystream after a key or tweak change.  The next batch
+   starts at the first counter block that has not been used yet, which is what
+   the generic back end does, so all back ends produce the same stream */
+STATIC_INLINE void skinny128_ctr_vec256_reset(Skinny128CTRVec256Ctx_t *ctx)
+{
+    if (ctx->offset < SKINNY128_CTR_BLOCK_SIZE) {
+        ctx->pending = (ctx->offset + SKINNY128_BLOCK_SIZE - 1) / SKINNY128_BLOCK_SIZE;
+        ctx->offset = SKINNY128_CTR_BLOCK_SIZE;
+    }
+}
 
 static int skinny128_ctr_vec256_set_counter
     (Skinny128CTR_t *ctr, const void *counter, unsigned size);
@@ -95,7 +109,7 @@ static int skinny128_ctr_vec256_set_key
         return 0;
 
     /* Reset the keystream */
-    ctx->offset = SKINNY128_CTR_BLOCK_SIZE;
+    skinny128_ctr_vec256_reset(ctx);
     return 1;
 }
 
@@ -116,7 +130,7 @@ static int skinny128_ctr_vec256_set_tweaked_key
         return 0;
 
     /* Reset the keystream */
-    ctx->offset = SKINNY128_CTR_BLOCK_SIZE;
+    skinny128_ctr_vec256_reset(ctx);
     return 1;
 }
 
@@ -135,7 +149,7 @@ static int skinny128_ctr_vec256_set_tweak
         return 0;
 
     /* Reset the keystream */
-    ctx->offset = SKINNY128_CTR_BLOCK_SIZE;
+    skinny128_ctr_vec256_reset(ctx);
     return 1;
 }
 
@@ -181,6 +195,7 @@ static int skinny128_ctr_vec256_set_counter
         memset(block, 0, SKINNY128_BLOCK_SIZE);
     }
     ctx->offset = SKINNY128_CTR_BLOCK_SIZE;
+    ctx->pending = 0;
 
     /* Load the counter block and convert into row vectors */
     ctx->counter[0] = skinny_to_vec8x32(READ_WORD32(block,  0));
@@ -403,16 +418,17 @@ static int skinny128_ctr_vec256_encrypt
     while (size > 0) {
         if (ctx->offset >= SKINNY128_CTR_BLOCK_SIZE) {
             /* We need a new keystream block */
+            skinny128_ctr_increment(ctx->counter, 0, ctx->pending);
+            skinny128_ctr_increment(ctx->counter, 1, ctx->pending);
+            skinny128_ctr_increment(ctx->counter, 2, ctx->pending);
+            skinny128_ctr_increment(ctx->counter, 3, ctx->pending);
+            skinny128_ctr_increment(ctx->counter, 4, ctx->pending);
+            skinny128_ctr_increment(ctx->counter, 5, ctx->pending);
+            skinny128_ctr_increment(ctx->counter, 6, ctx->pending);
+            skinny128_ctr_increment(ctx->counter, 7, ctx->pending);
             skinny128_ecb_encrypt_eight
                 (ctx->ecounter, ctx->counter, &(ctx->kt.ks));
-            skinny128_ctr_increment(ctx->counter, 0, 8);
-            skinny128_ctr_increment(ctx->counter, 1, 8);
-            skinny128_ctr_increment(ctx->counter, 2, 8);
-            skinny128_ctr_increment(ctx->counter, 3, 8);
-            skinny128_ctr_increment(ctx->counter, 4, 8);
-            skinny128_ctr_increment(ctx->counter, 5, 8);
-            skinny128_ctr_increment(ctx->counter, 6, 8);
-            skinny128_ctr_increment(ctx->counter, 7, 8);
+            ctx->pending = 8;
 
             /* XOR an entire keystream block in one go if possible */
             if (size >= SKINNY128_CTR_BLOCK_SIZE) {
